@@ -70,7 +70,7 @@ func EnumCase(path, in string, data interface{}, enum interface{}, caseSensitive
 				continue
 			}
 			expectedValue := reflect.ValueOf(data)
-			if expectedValue.IsValid() && expectedValue.Type().ConvertibleTo(actualType) {
+			if expectedValue.IsValid() && comparableAfterConversion(expectedValue.Type(), actualType) {
 				// Attempt comparison after type conversion
 				if reflect.DeepEqual(expectedValue.Convert(actualType).Interface(), enumValue) {
 					return nil
@@ -80,6 +80,24 @@ func EnumCase(path, in string, data interface{}, enum interface{}, caseSensitive
 		values = append(values, enumValue)
 	}
 	return errors.EnumFail(path, in, data, values)
+}
+
+// comparableAfterConversion tells whether a value of type from may be compared with an enum member of
+// type to after conversion. Go converts an integer to a string holding the rune of that number
+// (65 yields "A"): this is not a comparison of values, so integers are never converted to strings.
+func comparableAfterConversion(from, to reflect.Type) bool {
+	if !from.ConvertibleTo(to) {
+		return false
+	}
+	if to.Kind() == reflect.String {
+		switch from.Kind() { //nolint:exhaustive
+		case reflect.Int, reflect.Int8, reflect.Int16, reflect.Int32, reflect.Int64,
+			reflect.Uint, reflect.Uint8, reflect.Uint16, reflect.Uint32, reflect.Uint64, reflect.Uintptr:
+			return false
+		}
+	}
+
+	return true
 }
 
 // convertEnumCaseStringKind converts interface if it is kind of string and case insensitivity is set
